@@ -129,7 +129,12 @@ class Fn:
         if k == "goto":
             out = [t[1]]
         elif k == "switch":
-            out = [x[1] for x in t[2]] + [t[3]]
+            cv = self._const_switch(bi, t[1])
+            if cv is not None:
+                tg = [b for v, b in t[2] if v == cv]
+                out = tg[:1] if tg else [t[3]]
+            else:
+                out = [x[1] for x in t[2]] + [t[3]]
         elif k == "drop":
             out = [t[2]] + ([t[3]] if with_unwind and t[3] is not None else [])
         elif k == "call":
@@ -146,6 +151,17 @@ class Fn:
         elif k == "asm":
             out = list(t[1])
         return out
+
+    def _const_switch(self, bi, op):
+        """value of a switch operand that is a literal constant (`if cfg!(debug_assertions)` etc.)"""
+        if op[0] == "k":
+            return op[1].get("bits")
+        if op[1][1]:
+            return None
+        d = self.find_def_in_block(bi, op[1][0])
+        if d is not None and d[0] == "use" and d[1][0] == "k":
+            return d[1][1].get("bits")
+        return None
 
     @property
     def succ(self):
